@@ -81,7 +81,14 @@ impl Session {
                 let before = self.r.next_sequence();
                 self.inputs += 1;
                 self.arrived.insert(tag, seq);
-                match self.r.process(seq, tag) {
+                let res = match catch(std::panic::AssertUnwindSafe(|| self.r.process(seq, tag))) {
+                    Ok(r) => r,
+                    Err(_) => {
+                        out.fail("no-panic", "process", format!("process({}, {}) panicked with {} message(s) waiting", seq, tag, self.outstanding.len()));
+                        return "panic".into();
+                    }
+                };
+                match res {
                     ProcessResult::MessageNextInSequence(m) => {
                         if m != tag {
                             out.fail("conservation", "process", format!("got {} for {}", m, tag));
@@ -122,13 +129,20 @@ impl Session {
                 }
             }
             ["reseq", "R"] => {
-                self.r.reset();
+                if catch(std::panic::AssertUnwindSafe(|| self.r.reset())).is_err() {
+                    out.fail("no-panic", "reset", "reset panicked".into());
+                    return "panic".into();
+                }
                 self.cleared += self.outstanding.len() as u64;
                 self.outstanding.clear();
                 "ok".into()
             }
             ["reseq", "S", n] => {
-                self.r.set_next_sequence(n.parse().unwrap());
+                let n: u8 = n.parse().unwrap();
+                if catch(std::panic::AssertUnwindSafe(|| self.r.set_next_sequence(n))).is_err() {
+                    out.fail("no-panic", "set_next_sequence", "set_next_sequence panicked".into());
+                    return "panic".into();
+                }
                 "ok".into()
             }
             ["reseq", "N"] => format!("next={}", self.r.next_sequence()),
@@ -417,7 +431,62 @@ fn random_soup(out: &mut Out, rng: &mut Rng, len: usize) {
     out.count("soup:random");
 }
 
-pub const RULE: &str = "cases = (a) every permutation of a contiguous run of length n<=Lp from every start 0..=255, drained after each arrival; (b) every op sequence of length <=Ls over {process(next-2..next+2), drain, reset, set_next(0|254|255)} from starts {0,1,254,255}; (c) random permutations of runs up to 256 long from random starts; (d) random op soups with duplicates, stale and far-ahead numbers; (e) long duplicate-free streams (260..2000 messages, sequence numbers wrapping) delivered with bounded displacement so that fewer than 256 numbers are outstanding, incl. the zig-zag order 2,4,1,6,3,8,5,… that never lets the buffer empty (promptness oracle). A case is non-trivial if it is a permuted (not sorted) run, or a soup with at least two process calls; distinct = distinct op-line sequences (hashed).";
+/// (f) saturation: ALL 256 sequence values waiting at once (255 arrivals ahead of the expected one without a
+/// drain, then the expected one and a late copy of it, or the expected value moved onto a buffered one
+/// and the one missing value supplied), then drained to the end: nothing lost, nothing twice, in order
+fn saturation_case(out: &mut Out, rng: &mut Rng, e: u8, variant: u64) {
+    let mut sess = Session::new();
+    begin(&mut sess, out);
+    op(&mut sess, out, &format!("reseq S {}", e));
+    let mut order: Vec<u8> = (1..=255u8).collect();
+    match variant % 3 {
+        0 => rng.shuffle(&mut order),
+        1 => order.reverse(),
+        _ => {}
+    }
+    let mut tag = 0u32;
+    for d in &order {
+        tag += 1;
+        op(&mut sess, out, &format!("reseq P {} {}", e.wrapping_add(*d), tag));
+    }
+    match variant % 4 {
+        0 | 1 => {
+            // the expected one arrives (released at once), then a late copy of it: every slot is taken
+            tag += 1;
+            op(&mut sess, out, &format!("reseq P {} {}", e, tag));
+            tag += 1;
+            op(&mut sess, out, &format!("reseq P {} {}", e, tag));
+            if variant % 4 == 1 {
+                tag += 1;
+                op(&mut sess, out, &format!("reseq P {} {}", e, tag)); // and a duplicate of the copy
+            }
+        }
+        2 => {
+            // expected value moved onto a buffered number, the missing one supplied
+            let k = rng.range(1, 255) as u8;
+            op(&mut sess, out, &format!("reseq S {}", e.wrapping_add(k)));
+            tag += 1;
+            op(&mut sess, out, &format!("reseq P {} {}", e, tag));
+        }
+        _ => {
+            // a reset with everything waiting, then the same again
+            op(&mut sess, out, "reseq R");
+            op(&mut sess, out, &format!("reseq S {}", e));
+            for d in order.iter().take(40) {
+                tag += 1;
+                op(&mut sess, out, &format!("reseq P {} {}", e.wrapping_add(*d), tag));
+            }
+            tag += 1;
+            op(&mut sess, out, &format!("reseq P {} {}", e, tag));
+        }
+    }
+    sess.drain_all(out);
+    sess.flush_check(out);
+    out.nontrivial();
+    out.count("saturation");
+}
+
+pub const RULE: &str = "cases = (a) every permutation of a contiguous run of length n<=Lp from every start 0..=255, drained after each arrival; (b) every op sequence of length <=Ls over {process(next-2..next+2), drain, reset, set_next(0|254|255)} from starts {0,1,254,255}; (c) random permutations of runs up to 256 long from random starts; (d) random op soups with duplicates, stale and far-ahead numbers; (e) long duplicate-free streams (260..2000 messages, sequence numbers wrapping) delivered with bounded displacement so that fewer than 256 numbers are outstanding, incl. the zig-zag order 2,4,1,6,3,8,5,… that never lets the buffer empty (promptness oracle); (f) saturation: all 256 sequence values waiting at once (255 ahead + the expected one and late copies of it / the expected value moved onto a buffered number / reset with everything waiting), drained to the end. A case is non-trivial if it is a permuted (not sorted) run, or a soup with at least two process calls; distinct = distinct op-line sequences (hashed).";
 
 pub fn run(args: &Args, out: &mut Out) -> &'static str {
     let mut rng = Rng::new(args.seed);
@@ -475,6 +544,17 @@ pub fn run(args: &Args, out: &mut Out) -> &'static str {
         keyed.sort();
         let p: Vec<usize> = keyed.into_iter().map(|x| x.1).collect();
         window_case(out, rng.below(256) as u8, &p, "bounded-displacement");
+    }
+    // (f)
+    for (k, e) in [0u8, 1, 127, 128, 254, 255, 77, 200].into_iter().enumerate() {
+        for v in 0..4u64 {
+            saturation_case(out, &mut rng, e, v + 4 * (k as u64 % 3));
+        }
+    }
+    for _ in 0..(if args.thorough() { 200 } else { 16 }) {
+        let e = rng.below(256) as u8;
+        let v = rng.below(12);
+        saturation_case(out, &mut rng, e, v);
     }
     // (d)
     for _ in 0..nsoup {
